@@ -137,7 +137,6 @@ impl Base64 {
     }
 
     pub fn decode_sequence(text: String) -> Result<Vec<u8>, String> {
-        let result : Vec<u8> = vec![];
 
         let number_of_equal_signs = text.matches(SYMBOL.equals).count();
 
@@ -343,7 +342,7 @@ impl Base64 {
 
         }
 
-        Ok(result)
+        Err(format!("unable to decode sequence, unexpected number of padding characters: {}", number_of_equal_signs))
     }
 
     pub fn encode_sequence(bytes: &[u8]) -> Result<String, String> {
